@@ -238,7 +238,10 @@ func (lex *ShellLexer) Lex(lval *shyySymType) (ttype int) {
 		lex.inCasePattern = true
 	case (lex.atCommandStart || lex.sinceCase == 3) && token == "esac":
 		ttype = tkESAC
-		lex.atCommandStart = false
+		// Like after "done" and "fi", further reserved words such as
+		// "done", "fi" or "}" may follow.
+		lex.atCommandStart = true
+		lex.inCasePattern = false
 	case lex.atCommandStart && matches(token, `^[A-Za-z_]\w*=`):
 		ttype = tkASSIGNMENT_WORD
 		p := NewShTokenizer(nil, token)
